@@ -735,9 +735,14 @@ func history(r *c.Rng, auth *c.FakeAuth, worlds []*world, linear bool, maxLen in
 	t0 := vnow
 	n := 2 + r.Intn(maxLen-1)
 	var steps []stepObs
-	outage := 0
+	outage, shape, outSt := 0, 0, 503
 	for i := 0; i < n; i++ {
-		vnow += dts[r.Intn(len(dts))] * sec
+		if outage > 0 && shape >= 3 {
+			// a persistent outage walked across the grace boundary in validity-period-sized strides
+			vnow += []int64{660, 660, 1860, 300}[r.Intn(4)] * sec
+		} else {
+			vnow += dts[r.Intn(len(dts))] * sec
+		}
 		rq := reqSpec{Method: "GET", Path: "/x/data", CookieKind: "none"} // matches no world's skip-auth pattern
 		var pres *vsession
 		if cur != nil {
@@ -753,18 +758,35 @@ func history(r *c.Rng, auth *c.FakeAuth, worlds []*world, linear bool, maxLen in
 		}
 		pOK := 0.6
 		var a ans
-		if outage > 0 { // runs of outage answers
-			st := []int{429, 503}[r.Intn(2)]
+		if outage > 0 { // runs of outage answers; the shape of the outage persists through the run
+			st := outSt
+			if shape == 0 || shape == 3 {
+				st = []int{429, 503}[r.Intn(2)]
+			}
 			a = genAns(r, 1.0)
-			a.RefreshStatus, a.ValidateStatus = st, st
-			if r.Chance(0.5) {
-				a.ProfileStatus = st
+			switch shape {
+			case 0: // every endpoint down, the group lookup half of the time
+				a.RefreshStatus, a.ValidateStatus = st, st
+				if r.Chance(0.5) {
+					a.ProfileStatus = st
+				}
+			case 1, 4: // only the group lookup is down: refresh and validation succeed
+				a.RefreshStatus, a.ValidateStatus, a.ProfileStatus = 201, 200, st
+			case 2, 5: // refresh and validation down, the group lookup answers
+				a.RefreshStatus, a.ValidateStatus, a.ProfileStatus = st, st, 200
+			default: // 3: everything down for the whole run
+				a.RefreshStatus, a.ValidateStatus, a.ProfileStatus = st, st, st
 			}
 			outage--
 		} else {
 			a = genAns(r, pOK)
 			if r.Chance(0.15) {
 				outage = 1 + r.Intn(4)
+				shape = r.Intn(6)
+				outSt = []int{429, 503}[r.Intn(2)]
+				if shape >= 3 {
+					outage = 3 + r.Intn(6)
+				}
 			}
 		}
 		o := w.step(auth, vnow, rq, a)
